@@ -17,6 +17,10 @@ import BlocV.Spec.Lex
 import BlocV.DrvC18
 -- END C18
 
+-- BEGIN C19
+import BlocV.DrvC19
+-- END C19
+
 open BlocV BlocV.Proto
 
 def specIRes : Spec.IRes → String
@@ -73,6 +77,9 @@ def handleTok (hex reader : String) : String :=
 -- END C13
 
 def handle (words : List String) : String :=
+  -- BEGIN C19
+  if let some r := DrvC19.handle words then r else
+  -- END C19
   -- BEGIN C18
   if let some r := DrvC18.handle words then r else
   -- END C18
